@@ -69,7 +69,7 @@ def conditions(tier, seed):
                         case_split=['ci (program, optional-word mask, gap pair)'], realised=['program text']))
     q = tier == 'quick'
     out.append(Cond('abs_core', 'c07_abs.py', dict(family='core'), func='check_program', timeout=600 if q else 3000,
-                    bound='35 statement skeletons written with minimal parentheses: the parsed tree, lifted back, equals the tree that was written (statement kinds, order, nesting, elif order, operands, names)',
+                    bound='36 statement skeletons written with minimal parentheses: the parsed tree, lifted back, equals the tree that was written (statement kinds, order, nesting, elif order, operands, names)',
                     case_split=['program'], realised=['program text'], twin=False))
     out.append(Cond('abs_gen', 'c07_abs.py', dict(family='gen', seed=seed, count=40 if q else 400), func='check_program', timeout=600 if q else 3000,
                     bound='%d generated programs (seed %d) written with minimal parentheses vs the tree that was written' % (40 if q else 400, seed),
